@@ -212,6 +212,13 @@ def gen_pat(tp, depth=0, allow_mono=True):
         b = gen_bind(tp)
         a[1].pop('dur', None)        # the outer pattern only overrides keys
         a[1].setdefault('pan', 0.5)
+        if tp.draw(4) == 0:
+            # the outer pattern rests first (Pdelta): the rest takes the
+            # place of the inner pattern's first event, the outer keys then
+            # go on top of the events that come in after it
+            a[1].pop('stretch', None)
+            b[1].pop('stretch', None)
+            return ['chain', ['delta', tp.choice([0.25, 0.5, 1]), a], b]
         return ['chain', a, b]
     return gen_bind(tp)
 
@@ -532,6 +539,22 @@ def expand(p, inherited=None):
             out.append([t, ev])
             t += resolve(ev)['delta']
         return out, t
+    if k == 'chain' and p[1][0] == 'delta':
+        inner, _ = expand(p[2])
+        oks = p[1][2][1]
+        lists = [v for v in oks.values() if isinstance(v, list)]
+        if not inner:
+            return [], 0.0
+        out = [[0.0, None]]                 # the rest, instead of inner[0]
+        t = float(p[1][1])
+        n = min([len(inner) - 1] + [len(v) for v in lists])
+        for i in range(n):
+            ev = dict(inner[i + 1][1])
+            for kk, v in oks.items():
+                ev[kk] = v[i] if isinstance(v, list) else v
+            out.append([t, ev])
+            t += resolve(ev)['delta']
+        return out, t
     if k == 'chain':
         inner, _ = expand(p[2])
         outer = p[1]
@@ -608,6 +631,10 @@ def build_pattern(p):
         b = build_pattern(['bind', p[1], p[2]])
         b.dict.pop('instrument', None)
         return Pmono(p[2], b.dict, articulate=len(p) > 3 and bool(p[3]))
+    if k == 'chain' and p[1][0] == 'delta':
+        a = build_pattern(p[1][2])
+        a.dict.pop('instrument', None)
+        return Pchain(Pdelta(p[1][1], a), build_pattern(p[2]))
     if k == 'chain':
         a = build_pattern(p[1])
         a.dict.pop('instrument', None)
